@@ -333,6 +333,12 @@ func (f *Func) reachTarget(
 ) (map[interface{}]reflect.Value, error) {
 	log.Trace("reachTarget", "target", target)
 
+	// Track the targets we are in the middle of reaching so that converters
+	// that (transitively) depend on each other are reported as unsatisfied
+	// rather than recursing forever.
+	state.Reaching[graph.VertexID(target)] = struct{}{}
+	defer delete(state.Reaching, graph.VertexID(target))
+
 	// argMap will store all the values that this target depends on.
 	argMap := map[interface{}]reflect.Value{}
 
@@ -409,9 +415,10 @@ func (f *Func) reachTarget(
 			input = paths[i][1]
 		}
 
-		// If the path contains ourself, then this target is unsatisfied.
+		// If the path contains ourself or any other target that we're
+		// already in the process of reaching, then this target is unsatisfied.
 		for _, v := range paths[i] {
-			if v == target {
+			if _, ok := state.Reaching[graph.VertexID(v)]; ok {
 				valueable, ok := current.(valueConverter)
 				if !ok {
 					// This shouldn't be possible
@@ -626,6 +633,10 @@ type callState struct {
 
 	// TODO
 	InputSet map[interface{}]graph.Vertex
+
+	// Reaching is the set of targets (by vertex ID) that reachTarget is
+	// currently resolving, used to detect dependency cycles.
+	Reaching map[interface{}]struct{}
 }
 
 func newCallState() *callState {
@@ -633,5 +644,6 @@ func newCallState() *callState {
 		NamedValue: map[string]reflect.Value{},
 		TypedValue: map[reflect.Type]reflect.Value{},
 		InputSet:   map[interface{}]graph.Vertex{},
+		Reaching:   map[interface{}]struct{}{},
 	}
 }
